@@ -20,16 +20,16 @@ def py_cmp(op, a, b):
     return {"==": a == b, "!=": a != b, "<": a < b, "<=": a <= b, ">": a > b, ">=": a >= b}[op]
 
 
-def cid_text(nkeys, checks):
+def cid_text(nkeys, checks, key_decl=None):
     lines = ["d,format,delimited"]
     for i in range(nkeys):
-        lines.append("f,k%d,,,,Choice,\"a,b\"" % i)
+        lines.append("f,k%d,%s" % (i, key_decl or ",,,Choice,\"a,b\""))
     lines.append("f,v,,X,...1,Text,")
     lines += checks
     return "\n".join(lines) + "\n"
 
 
-def oracle(rows, header, limit, nkeys, checks, register="accepted"):
+def oracle(rows, header, limit, nkeys, checks, register="accepted", key_ok=None):
     """checks: list of ("unique", [key indexes]) / ("count", field index, op, n) in declaration order.
     -> (items, close_fails); items: ("row", row) | ("err", line, cell, see_also_line or None)
     register="accepted": a key is remembered only when its row is finally accepted (what the property says);
@@ -49,7 +49,7 @@ def oracle(rows, header, limit, nkeys, checks, register="accepted"):
             bad = (0, None)
         else:
             for j in range(nkeys):
-                if row[j] != "a" and row[j] != "b":
+                if not (key_ok(row[j]) if key_ok is not None else (row[j] == "a" or row[j] == "b")):
                     bad = (j, None)
                     break
             if bad is None and len(row[nkeys]) > 1:
@@ -84,8 +84,16 @@ def oracle(rows, header, limit, nkeys, checks, register="accepted"):
     return out, fails
 
 
-def make(nkeys, nrows, checks, check_rows, fixed_keys=None, twice=False, sym_vals=True, alphabet=(97, 99)):
-    text = cid_text(nkeys, check_rows)
+POOL = ["a", "a, b", "c", "b, c"]  # texts that collide when key parts are joined with ', '
+
+
+def make(nkeys, nrows, checks, check_rows, fixed_keys=None, twice=False, sym_vals=True, alphabet=(97, 99), keymode="choice"):
+    """keymode 'choice': key cells are single letters of a Choice a/b field; 'int': Integer key fields whose cells are
+    digit texts ('7' and '07' are different keys: checks see the text); 'pool': Text key fields whose cells are picked
+    (by a symbolic index) from POOL"""
+    key_decl = {"choice": None, "int": ",,1...2,Integer,0...99", "pool": ",,,Text,"}[keymode]
+    key_ok = {"choice": None, "int": (lambda c: 1 <= len(c) <= 2), "pool": (lambda c: True)}[keymode]
+    text = cid_text(nkeys, check_rows, key_decl)
     n = nkeys + 1
 
     def go(header, has_limit, limit, keys, vals):
@@ -97,7 +105,7 @@ def make(nkeys, nrows, checks, check_rows, fixed_keys=None, twice=False, sym_val
         lim = limit if has_limit else None
         cid = rf.build_cid(text)
         rf.set_header(cid, header)
-        exp, exp_fail = oracle(rows, header, lim, nkeys, checks)
+        exp, exp_fail = oracle(rows, header, lim, nkeys, checks, key_ok=key_ok)
         why = ""
         with patched(rf.smart_repr(), *rf.srows_patches()):
             reader = validio.Reader(cid, rows, on_error="yield", validate_until=lim)
@@ -133,7 +141,7 @@ def make(nkeys, nrows, checks, check_rows, fixed_keys=None, twice=False, sym_val
         ndup = sum(1 for e in exp if e[0] == "err" and e[3] is not None)
         cls = "dup%d-%s" % (min(ndup, 2), "endfail" if exp_fail else "endok")
         if not ok and not twice:
-            alt, alt_fail = oracle(rows, header, lim, nkeys, checks, register="seen")
+            alt, alt_fail = oracle(rows, header, lim, nkeys, checks, register="seen", key_ok=key_ok)
             if len(alt) == len(got) and all(
                     g[0] == a[0] and (g[0] == "row" or g[1:] == a[1:]) for g, a in zip(got, alt)) and alt != exp:
                 why = "KNOWN-SHAPE " + why
@@ -141,13 +149,26 @@ def make(nkeys, nrows, checks, check_rows, fixed_keys=None, twice=False, sym_val
 
     def mk(mode):
         def h(header: int, has_limit: bool, limit: int, k0: str, k1: str, k2: str, k3: str, k4: str, k5: str,
-              v0: str, v1: str, v2: str, v3: str, v4: str):
+              v0: str, v1: str, v2: str, v3: str, v4: str, p0: int, p1: int, p2: int, p3: int, p4: int, p5: int):
             assume(0 <= header <= 1)
             assume(0 <= limit <= nrows + 1)
             keys = [k0, k1, k2, k3, k4, k5]
             vals = [v0, v1, v2, v3, v4]
             if fixed_keys is not None:
                 keys = list(fixed_keys) + [""] * 6
+            elif keymode == "pool":
+                assume(header == 0 and not has_limit)
+                picks = [p0, p1, p2, p3, p4, p5]
+                keys = []
+                for i in range(nrows * nkeys):
+                    assume(0 <= picks[i] < len(POOL))
+                    keys.append(POOL[picks[i]])
+                keys += [""] * 6
+            elif keymode == "int":
+                for i in range(nrows * nkeys):
+                    assume(1 <= len(keys[i]) <= 2)
+                    for ch in keys[i]:
+                        assume(ord(ch) == 48 or ord(ch) == 55)  # digits 0 and 7: '7', '07', '70', '0', '00', '77'
             else:
                 for i in range(nrows * nkeys):
                     assume(len(keys[i]) == 1 and alphabet[0] <= ord(keys[i]) <= alphabet[1])
@@ -164,6 +185,8 @@ def make(nkeys, nrows, checks, check_rows, fixed_keys=None, twice=False, sym_val
         keys = [args["k%d" % i] for i in range(6)]
         if fixed_keys is not None:
             keys = list(fixed_keys) + [""] * 6
+        elif keymode == "pool":
+            keys = [POOL[args["p%d" % i] % len(POOL)] for i in range(6)]
         vals = [args["v%d" % i] for i in range(5)] if sym_vals else [""] * 5
         ok, why, cls, rows = go(args["header"], args["has_limit"], args["limit"], keys, vals)
         key = "unique-distinct"
@@ -195,11 +218,21 @@ def build(tier, seed):
         confs.append((2, 3, [("unique", [1])], ["c,u,IsUnique,k1"], False))
         confs.append((1, 3, [("count", 0, "<", 2), ("unique", [0])], ["c,d,DistinctCount,k0 < 2", "c,u,IsUnique,k0"], False))
         confs.append((1, 3, [("unique", [0])], ["c,u,IsUnique,k0"], True))
-    for nkeys, nrows, checks, check_rows, twice in confs:
+    confs = [c + ("choice",) for c in confs]
+    confs.append((1, 2, [("unique", [0])], ["c,u,IsUnique,k0"], False, "int"))
+    confs.append((1, 2, [("count", 0, "<=", 1)], ["c,d,DistinctCount,k0 <= 1"], False, "int"))
+    confs.append((2, 2, [("unique", [0, 1])], ["c,u,IsUnique,\"k0, k1\""], False, "pool"))
+    if tier == "thorough":
+        confs.append((1, 3, [("unique", [0]), ("count", 0, "<", 3)], ["c,u,IsUnique,k0", "c,d,DistinctCount,k0 < 3"], False, "int"))
+        confs.append((2, 3, [("unique", [0, 1])], ["c,u,IsUnique,\"k0, k1\""], False, "pool"))
+        confs.append((3, 2, [("unique", [0, 1, 2])], ["c,u,IsUnique,\"k0,k1,k2\""], False, "pool"))
+    for nkeys, nrows, checks, check_rows, twice, keymode in confs:
         two = len(checks) > 1 and checks[0][0] == checks[1][0] == "unique"
-        mk, rp = make(nkeys, nrows, checks, check_rows, twice=twice, sym_vals=not two, alphabet=(97, 98) if two else (97, 99))
-        queries.append(Query("C05/%dkeys/rows=%d/%s%s" % (nkeys, nrows, ";".join(c.split(",", 2)[2] for c in check_rows),
-                                                         "/twice" if twice else ""), "unique-distinct", mk,
+        mk, rp = make(nkeys, nrows, checks, check_rows, twice=twice, sym_vals=(not two) and keymode == "choice",
+                      alphabet=(97, 98) if two else (97, 99), keymode=keymode)
+        queries.append(Query("C05/%dkeys%s/rows=%d/%s%s" % (nkeys, "" if keymode == "choice" else "-" + keymode, nrows,
+                                                           ";".join(c.split(",", 2)[2] for c in check_rows),
+                                                           "/twice" if twice else ""), "unique-distinct", mk,
                              "%d key field(s) over {a,b,c} (c invalid), 1 value field (len<=2, valid iff len<=1), %d rows, "
                              "checks %r, header 0..1, limit none/0..%d%s" % (nkeys, nrows, check_rows, nrows + 1,
                                                                           ", same Reader iterated twice" if twice else ""),
